@@ -25,7 +25,14 @@ def worker(wid, q, outfh, lock, binpath):
                 return
             path = os.path.join(repo, m["file"])
             orig = open(path, "rb").read()
-            mutated = orig[:m["start"]] + m["repl"].encode() + orig[m["end"]:]
+            if m["op"] == "rename":
+                newname, spans = m["repl"].split("\x00")
+                edits = sorted((tuple(int(x) for x in sp.split(":")) for sp in spans.split(",")), reverse=True)
+                mutated = orig
+                for (a, b) in edits:
+                    mutated = mutated[:a] + newname.encode() + mutated[b:]
+            else:
+                mutated = orig[:m["start"]] + m["repl"].encode() + orig[m["end"]:]
             open(path, "wb").write(mutated)
             t0 = time.time()
             try:
